@@ -33,7 +33,14 @@ TRUSTED = ["hand-written models coq/Axml/ArscTypeModel.v, coq/Axml/ArscTableMode
 COQ_HEADER = "Require Import V.Axml.PoolModel V.Axml.ArscTypeModel."
 PKG = 0x7F
 TYPES = ["string", "integer", "bool", "array", "style", "id"]
-LANGS = ["", "de", "fr", "ja"]
+LANGS = ["", "de", "fr", "ja", "pt-rBR", "es-r419", "fil", "fil-rPH", "en-r001"]
+
+
+def cfg_of(lg):
+    """Config for a locale name: language[-rREGION]; three-letter languages and three-digit regions are packed"""
+    from tools.writers.arscwriter import Config
+    lang, _, region = lg.partition("-r")
+    return Config(language=lang, region=region)
 MODES = ["dense", "dense", "off16", "sparse"]
 STRING, REFERENCE, INT_DEC, INT_BOOL = 3, 1, 0x10, 0x12
 
@@ -50,7 +57,7 @@ def gen(rng, tier, ctx):
     for _ in range(150 if tier == "thorough" else 35):
         entries = {}
         ntypes = rng.randint(1, len(TYPES))
-        langs = LANGS[:rng.randint(1, len(LANGS))]
+        langs = [""] + rng.sample(LANGS[1:], rng.randint(0, 4))
         for t in TYPES[:ntypes]:
             for i in rng.sample(range(8), rng.randint(0, 5)):
                 d = {}
@@ -120,7 +127,7 @@ def main_table(case):
             if lg not in d:
                 continue
             v = d[lg]
-            cfg = Config(language=lg)
+            cfg = cfg_of(lg)
             if v[0] == "a":
                 val = Complex([(0x02000000 + n, simple(it)) for n, it in enumerate(v[1])])
             elif v[0] == "cs":
@@ -305,16 +312,20 @@ def gen_walk(rng, tier, ctx):
 def build_walk(case):
     from tools.writers.arscwriter import Table, Config, Simple, build_tables, string_pool
     tables = [main_table(case["main"])]
-    for o in case["others"]:
-        t = Table(package=o["name"], package_id=o["id"], utf8=False)
+    for k, o in enumerate(case["others"]):
+        t = Table(package=o["name"], package_id=o["id"], utf8=False, values=tables[0].values)
         t.add_type("integer")
         cfg = Config(language="")
         for i, n in sorted(o["ints"].items()):
             t.add_entry("integer", i, "n%d" % i, cfg, Simple(INT_DEC, n))
         t.modes[("integer", cfg.key())] = o["mode"]
+        # string resources in the default locale: one key every package has (with its own value), one only this package has
+        t.add_entry("string", 0, "shared_key", cfg, Simple(STRING, "value of %s #%d" % (o["name"], k)))
+        t.add_entry("string", 1, "only_%d" % k, cfg, Simple(STRING, "own %d" % k))
         if o["lib"]:
             t.extra_chunks = chunk(0x0203, struct.pack("<I", 0) , hs=12)
         tables.append(t)
+    tables[0].add_entry("id", 7, "shared_key", Config(language=""), Simple(INT_DEC, 1))     # same key name, not a string, in the first package
     top = b""
     for kind in case["top"]:
         top += {"unknown": chunk(0x0300, b"\x01\x02\x03\x04\x05\x06\x07\x08"), "second_pool": string_pool(["ignored"]), "library": chunk(0x0203, struct.pack("<I", 0), hs=12)}[kind]
@@ -346,7 +357,17 @@ def impl_walk(case):
                     pay = [0, it.key.get_data_type(), it.key.get_data()]
                 cur[3].append([it.mResId, it.size, it.flags, it.index, pay])
         out.append([pid, [ord(ch) for ch in name], chunks])
-    return {"packages": out, "raw": raw}
+    strings = []
+    if isinstance(case, dict):
+        for rnd in (0, 1):                                        # twice: an answer must not depend on what was asked before
+            for k, o in (list(enumerate(case["others"])) if rnd == 0 else list(reversed(list(enumerate(case["others"]))))):
+                for key in ("shared_key", "only_%d" % k, "only_%d" % ((k + 1) % max(1, len(case["others"])))):
+                    try:
+                        v = a.get_string(o["name"], key)
+                    except Exception as e:
+                        v = "EXC " + type(e).__name__
+                    strings.append([o["name"], key, v if v is None or isinstance(v, str) else list(v)])
+    return {"packages": out, "raw": raw, "strings": strings}
 
 
 def canon_walk(res):
@@ -384,6 +405,15 @@ def oracle_walk(case, res):
                 if names.count(o["name"]) > 1 or [x["id"] for x in case["others"] if x["name"] == o["name"]].count(o["id"]) != 1 or o["name"] == "com.ex":
                     continue          # two packages of one name share a list; ids of a later one overwrite: compared with the model only
                 return "package %s: resource 0x%08x = %d is not listed (%s)" % (o["name"], rid, n, found.get(rid))
+    # get_string per package: the first string entry of that name in that package (packages of one name share a list), whatever
+    # was asked before
+    per = {}
+    for k, o in enumerate(case["others"]):
+        per.setdefault(o["name"], []).extend([("shared_key", "value of %s #%d" % (o["name"], k)), ("only_%d" % k, "own %d" % k)])
+    for name, key, got_v in res.get("strings", []):
+        want = next(([kk, vv] for kk, vv in per.get(name, []) if kk == key), None)
+        if got_v != want:
+            return "get_string(%r, %r) = %r, the package stores %r" % (name, key, got_v, want)
     return None
 
 
